@@ -9,7 +9,7 @@ sys.path.insert(0, os.path.join(VERIF, "checks"))
 # (property, signature regex) -> (title, where)
 TITLES = [
     ("C01", r"rule-unsound_expr_if-not", "rewrite rule if-not: (if (not c) a b) => (if c b a) is wrong when c is NULL (both sides take their ELSE branch, which differ)", "src/planner/rules/expr.rs if-not"),
-    ("C01", r"rule-unsound_expr_(eq-trans|and-gt-lt-conflict)", "rewrite rules eq-trans / and-gt-lt-conflict are only filter-equivalent: as projected values they turn NULL into FALSE", "src/planner/rules/expr.rs"),
+    ("C01", r"rule-unsound_expr_(eq-trans|and-gt-lt-conflict)", "rewrite rules eq-trans / and-gt-lt-conflict are only filter-equivalent: as projected values (and under NOT) they turn NULL into FALSE; the repo's unit tests and_eq_const / constant_gt_lt_conflict require both rules, so they cannot be removed without editing tests", "src/planner/rules/expr.rs"),
     ("C01", r"rule-unsound", "a rewrite rule applied alone changes the result of a well-typed instantiation of its left-hand side", "src/planner/rules"),
     ("C01", r"rows-differ_proj_(mulzero|subself|eqself)", "NULL-unsafe scalar rewrite rules (mul-zero, sub-cancel, eq-eq family) change results on NULL rows", "src/planner/rules/expr.rs"),
     ("C01", r"rows-differ_(join|selfjoin|derived)", "optimised join plans differ from the unoptimised plan: hash join matches NULL = NULL keys; join-condition pushdown applied to outer joins; filter pushed below LIMIT", "src/executor/hash_join.rs; src/planner/rules/plan.rs (pushdown-join-condition-*, pushdown-filter-limit/topn)"),
@@ -18,6 +18,7 @@ TITLES = [
     ("C02", r"no-answer_err_join(-ordered)?_(right|full)", "RIGHT/FULL OUTER joins that are not planned as hash/merge joins hit `todo!()` in the nested-loop join: the statement fails (no answer for a core-subset query)", "src/executor/nested_loop_join.rs:26"),
     ("C02", r"no-answer_panic_subquery", "some IN/EXISTS/scalar subqueries are planned into `apply` nodes or unresolved column references the executor cannot build", "src/planner/rules/plan.rs (subquery_rules); src/executor/mod.rs"),
     ("C02", r"rows-differ_(agg|groupby)", "aggregate semantics differ from SQL: SUM over empty/NULL-only input, COUNT(DISTINCT) counting NULL, hash-agg SUM reset by NULL", "src/executor/evaluator.rs; src/array/ops.rs (sum/count distinct states)"),
+    ("C02", r"rows-differ_subquery", "subquery answers differ from SQL: NOT IN is planned as an anti join that is not NULL-aware (a NULL on either side must make the predicate unknown); a correlated scalar COUNT subquery is decorrelated without the zero for groups with no rows", "src/planner/rules/plan.rs subquery_rules"),
     ("C02", r"rows-differ_(join|selfjoin|derived|subquery)", "join/subquery answers differ from SQL: NULL = NULL matches in hash/semi joins, NOT IN over NULLs, outer-join ON-condition pushdown", "src/executor/hash_join.rs; src/planner/rules/plan.rs"),
     ("C02", r"rows-differ_proj_", "NULL-unsafe scalar rewrites (a*0, a-a, a=a, conflicting ranges) evaluate to non-NULL on NULL rows", "src/planner/rules/expr.rs"),
     ("C03", r"reopen-fails", "CREATE VIEW consumes a table id that is not logged in the manifest: a table created after a view is replayed under a different id and the database no longer opens", "src/storage/secondary/manifest.rs (replay assigns ids by catalog order); src/executor/create_view.rs"),
@@ -37,12 +38,18 @@ TITLES = [
     ("C14", r"wrong-value_case", "CASE/IF takes the validity of its result from the validity of the condition instead of the selected branch: a NULL branch yields 0, a non-NULL branch yields NULL", "src/array/ops.rs select_op"),
     ("C14", r"wrong-value_cast", "CAST(int AS BOOLEAN) leaves the raw value under NULL slots: WHERE/AND/OR read it as TRUE", "src/array/ops.rs cast (no clear_null)"),
     ("C14", r"evaluation-fails", "expressions that panic inside the evaluator: x % 0, (p AND q) AND .., NOT (NOT p) forms produced by the rewrite rules", "src/array/ops.rs rem; src/planner/rules/expr.rs"),
-    ("C14", r"folded-differs", "constant folding is not three-valued: NULL AND FALSE / NULL OR TRUE fold to NULL, x % 0 panics in the folder", "src/planner/rules/expr.rs eval_constant"),
-    ("C14", r"overflow-not-an-error", "integer overflow (+, -, *, unary -, MIN / -1, SUM) and % by zero panic inside the operator (debug) / wrap (release) instead of returning an error value", "src/array/ops.rs arithmetic kernels"),
+    ("C14", r"folded-differs", "`select not null` is rejected by the type checker (NOT on the NULL type) while NOT over a NULL boolean column is NULL at run time", "src/planner/rules/expr.rs eval_constant"),
+    ("C14", r"overflow-not-an-error_extreme|spurious-error", "the comparison-with-addition rules (gt-add family: (a + b) > c => a > c - b) move a term across the comparison: the rewritten expression overflows where the original does not and vice versa (error <-> value for INT MIN/MAX operands); the repo's unit test constant_moving requires the rule", "src/planner/rules/expr.rs eq-add .. le-add"),
+    ("C14", r"overflow-not-an-error", "SUM over INT overflows inside the aggregate (panic in debug builds, wrap-around in release builds) instead of failing with an error: the aggregate state has no fallible path", "src/array/ops.rs sum; src/executor/evaluator.rs Ext::add"),
+    ("C14", r"overflow-not-an-error_OLD", "integer overflow (+, -, *, unary -, MIN / -1, SUM) and % by zero panic inside the operator (debug) / wrap (release) instead of returning an error value", "src/array/ops.rs arithmetic kernels"),
     ("C14", r"wrong-value", "vectorised evaluation differs from scalar three-valued semantics", "src/array/ops.rs"),
     ("C19", r"less-than-operator-fails|query-fails", "comparison operators (=, <, ...) are accepted by the type checker for TIMESTAMP / INTERVAL / BLOB but have no vectorised implementation ('no function eq/gt'): the relations used by ORDER BY / GROUP BY cannot be expressed with the SQL operators", "src/array/ops.rs (cmp kernels: missing variants); src/planner/rules/type_.rs"),
+    ("C16", r"declared-precision-or-scale-not-enforced", "the precision and scale of a DECIMAL(p,s) column are not enforced: 1.255 and 123456789012.5 are stored unchanged in a DECIMAL(10,2) column (the cast to DECIMAL ignores p and s)", "src/array/ops.rs cast (Decimal target)"),
     ("C16", r"lossy-or-invalid-conversion-accepted", "INSERT converts with loss instead of failing: a fractional literal is truncated into an integer column (1.5 -> 1)", "src/array/ops.rs (cast), src/executor/insert.rs"),
     ("C17", r"optimizer-panics", "the optimizer panics (egg extractor unwrap) on NOT IN over a filtered subquery and on a non-constant LIMIT", "src/planner/optimizer.rs / egg extract; src/planner/rules/plan.rs subquery_rules"),
+    ("C17", r"malformed-plan_limit-not-constant", "a LIMIT that is not a constant survives planning; the executor answers with an error (no plan for it)", "src/binder/select.rs bind_query; src/executor/mod.rs limit_value"),
+    ("C17", r"malformed-plan_apply", "correlated IN / scalar subqueries whose correlation is not a plain equality stay `apply` nodes, which the executor cannot run", "src/planner/rules/plan.rs subquery_rules"),
+    ("C17", r"malformed-plan_unresolved-subquery", "scalar subqueries in the select list and IN subqueries under OR survive optimisation as sub-plans inside expressions (no executor for them)", "src/planner/rules/plan.rs subquery_rules"),
     ("C17", r"malformed-plan:unresolved-subquery", "scalar / nested IN subqueries survive optimisation as sub-plans inside expressions (no executor for them)", "src/planner/rules/plan.rs subquery_rules"),
     ("C17", r"malformed-plan", "the optimised plan violates what the executor requires", "src/planner/rules/plan.rs"),
     ("C17", r"operator-panics|execution-panics|executor-build-panics", "accepted statements whose plan panics in the executor: RIGHT/FULL nested-loop join todo!(), non-constant LIMIT, scalar subquery forms", "src/executor/nested_loop_join.rs; src/executor/mod.rs"),
@@ -87,6 +94,21 @@ FIXED = [
     ("fix: CASE / IF takes its validity from the selected branch", "C14", "`case when q then b else null end` returned 0 where q is false; `case when a is null then b else a end` returned NULL for non-NULL a"),
     ("fix: the vectorised SUM skips NULL slots", "C11", "agg without keys over an all-NULL column: SUM = 0, hashagg says NULL; C01/C02 `select sum(b) from t1 where a > 100` returned 0"),
     ("fix: the nested-loop join implements RIGHT and FULL OUTER", "C11", "every RIGHT/FULL join through the nested-loop join panicked in todo!() (3 160 cases; C02 no-answer, C17 operator-panics)"),
+    ("fix: equi-join keys of different numeric types", "C01", "`t1(a int primary key) join t2(a bigint) on t1.a = t2.a` (db keyed:mix:mix): the optimised plan (hash join) returned no rows, the unoptimised plan 4; every join shape on mixed-width keys (2 000+ cases; C02 likewise)"),
+    ("fix: remove the if-not rewrite rule", "C01", "rule check expr/if-not: (if (not c) a b) and (if c b a) differ when c is NULL (28 instantiations)"),
+    ("fix: compaction removes the delete vectors", "C03", "history [CTt, It1, It1, DtA], two reopens, insert (99,99): the acknowledged row is invisible (464 cases of the strengthened check; reported first by a seeding agent as a defect of the unchanged tree that the depth-4 alphabet without whole-table deletes had missed)"),
+    ("fix: the manifest records the id", "C03", "history [CTt, CV or CI, CTu, Iu1] + reopen: NotFound(table 2) (24 cases; listed as known finding KF-C03-reopen-fails until repaired)"),
+    ("fix: CREATE TABLE / CREATE VIEW reject a column named _rowid_", "C17", "form `create table x(_rowid_ int)`: operator panic with the catalog mutex held (every later statement panics), on disk the logged CreateTable makes the directory unopenable"),
+    ("fix: SET of an unknown variable", "C17", "form `set foo = 1`: panic 'not a plan: Set'; `set mock_rowcount_t1 = 'x'`: unwrap of a cast error"),
+    ("fix: INSERT checks that the number of values", "C17", "form `insert into t1 values (1)` (two-column table): insert operator panicked"),
+    ("fix: unsupported column options", "C17", "form `create table x(a int default 1)`: todo!() in the binder"),
+    ("fix: unsupported SQL forms and wrong function", "C17", "forms `select f(1)` (unknown function), `select max() from t1`, `select t1.* from t1`, NATURAL/USING joins, window frames, a UDF called with the wrong number of arguments: todo!()/index panics in the binder"),
+    ("fix: comparison operators for TIMESTAMP", "C19", "types timestamp / interval / blob: `select x < y` failed with 'no function lt' although ORDER BY / GROUP BY / MIN work (6 known findings until repaired)"),
+    ("fix: a plan expression that is itself a column", "C14", "`select i from t where (p and q) and p is not null` and `select i from t where p` (boolean column as the whole condition): evaluator panicked 'can not evaluate expression' (16 cases, listed as known until repaired)"),
+    ("fix: integer and decimal arithmetic is checked", "C14", "`select (a + b) + 1 from o` with a = INT MAX, b = NULL panicked (overflow on the raw value under a NULL slot); a + b, a - b, a * b, - a, MIN / -1 overflow panicked (debug) / wrapped (release)"),
+    ("fix: the cost function never prefers", "C17", "`select a, b from t1 where a in (select a from t2)` on an empty t1 (disk, real statistics): un-rewritten IN subquery kept at cost 0, executor panicked 'column not found from input'; NOT IN over an empty subquery: NaN cost, egg extractor unwrap (44 cases)"),
+    ("fix: a LIMIT / OFFSET that is not", "C17", "`select a from t1 limit (select count(*) from t2)`: panic in the row estimate / executor builder"),
+    ("fix: INSERT refuses to truncate a fractional value", "C16", "`insert into t values (1.5, 7)` into x INT / BIGINT / SMALLINT (any constraint, both engines): stored 1 (24 cases, listed as known findings until repaired)"),
     ("fix: nullable block iterator keeps the validity", "C06", "int16 nullable plain, block 32, 81-row pattern, script [next(1), next(7)]: a batch spanning a block boundary lost rows / reported wrong row ids (155 050 cases)"),
 ]
 
@@ -109,10 +131,9 @@ def main():
     files = sorted(os.listdir(os.path.join(VERIF, "known")))
     # drop entries whose list vanished
     kj["findings"] = [f for f in kj["findings"] if os.path.basename(f["cases_file"]) in files]
+    kj["findings"] = []          # titles are recomputed from TITLES every time
     for fn in files:
         rel = f"known/{fn}"
-        if rel in have:
-            continue
         prop, sig = (fn[:-7] if fn.endswith(".txt.gz") else fn[:-4]).split(".", 1)
         title, where = f"failing cases with signature {sig}", "see witness"
         for p, rx, t, w in TITLES:
